@@ -667,6 +667,15 @@ func runC13(c *ev.Ctx) {
 		root := filepath.Join(work, fmt.Sprintf("bin-%d", i))
 		d := makeSampleDir(filepath.Join(root, "in"), bc.s, bc.nbytes, gen.Mix(seed, 131, uint64(i)), bc.scale == "1E8", bc.dup)
 		report := filepath.Join(root, "out", "report.csv")
+		if i%3 != 0 {
+			// the report path already holds an older, longer report (or something else entirely)
+			_ = os.MkdirAll(filepath.Dir(report), 0o755)
+			old := strings.Repeat("old_sample.bin, 0.500000, 0.500000\n", 400)
+			if i%3 == 2 {
+				old = headers[bc.scale] + strings.Repeat("stale_row.bin"+strings.Repeat(", 0.123456", 60)+"\n", 300)
+			}
+			_ = os.WriteFile(report, []byte(old), 0o644)
+		}
 		exe := bin
 		if bc.race {
 			exe = binRace
@@ -960,11 +969,11 @@ func runC20(c *ev.Ctx) {
 	var cases []c20Case
 	r := gen.NewRng(gen.Mix(seed, 2020))
 	ss := []int{1, 2, 3, 17, 64, 300}
-	nn := []int{8, 64, 20000, 1000000, 12345 * 8}
+	nn := []int{8, 64, 20000, 1000000, 12345 * 8, 262144, 262152, 786432, 1 << 20, 1<<20 - 8}
 	k := 0
 	for _, s := range ss {
 		for _, n := range nn {
-			if n == 1000000 && s > 17 {
+			if n >= 262144 && s > 17 {
 				continue
 			}
 			k++
